@@ -638,6 +638,51 @@ func (c *Ctx) rulesLevelImport(prop string, s *Slashing) {
 		{"att", s.AttState, map[string]string{s.AttSourceField: "HighestAttestedSourceEpoch", s.AttTargetField: "HighestAttestedTargetEpoch"}},
 		{"prop", s.PropState, map[string]string{s.PropSlotField: "HighestProposedSlot"}},
 	}
+	// the per-entry body may live in a package helper called once per entry from the import's loop: `importEntry(ctx, key, entry)`.
+	// The helper is then the scope of the per-entry obligations (an iteration = one call, ending at its nil-error return), and
+	// the import must return the helper's error.
+	E := F // the entry point, for the obligations on the loop
+	reachesStore := func(f *ssa.Function) int {
+		n := 0
+		for _, g := range c.StaticReach(f, 2) {
+			n += len(Calls(g, func(c2 ssa.CallInstruction) bool { return c2.Common().StaticCallee() == s.StoreStore }))
+		}
+		return n
+	}
+	if len(Calls(F, func(ci ssa.CallInstruction) bool { return ci.Common().StaticCallee() == s.StoreStore })) == 0 {
+		var perEntry []ssa.CallInstruction
+		for _, ci := range Calls(F, func(ci ssa.CallInstruction) bool {
+			f := ci.Common().StaticCallee()
+			return f != nil && prog.PkgPathOf(f) == s.Pkg.Pkg.Path() && f.Blocks != nil && f != F && !ci.Common().IsInvoke() && errResultIndex(f) >= 0 && reachesStore(f) >= 1
+		}) {
+			perEntry = append(perEntry, ci)
+		}
+		if len(perEntry) == 1 {
+			K := perEntry[0]
+			var eloop *rangeIterLoop
+			for _, l := range findRangeIterLoops(E) {
+				eloop = l
+			}
+			okLoop := eloop != nil && an.Reachable(an.Point{Block: eloop.Body, Idx: 0}, K.(ssa.Instruction))
+			if okLoop {
+				// every iteration calls the helper, and its error ends the import
+				hdr := eloop.Header
+				if x, _ := an.Cut(an.CutQuery{From: an.Point{Block: eloop.Body, Idx: 0}, Target: func(i ssa.Instruction) bool { return i == hdr.Instrs[0] },
+					AcceptInstr: func(i ssa.Instruction) bool { return i == K.(ssa.Instruction) }}); x != nil {
+					c.R.Fail(rule, Fn(E)+":per-entry", c.Pos(K), "an entry of the import can be skipped without the per-entry helper being called", "helper(entry) for every entry", nil)
+				}
+				errs := map[ssa.Value]bool{}
+				for _, e := range errValuesOfCall(K) {
+					errs[e] = true
+				}
+				if x, _ := an.Cut(an.CutQuery{From: an.After(K.(ssa.Instruction)), Target: func(i ssa.Instruction) bool { return i == hdr.Instrs[0] || isNilReturn(i, E) },
+					AcceptEdge: func(b *ssa.BasicBlock, i int, a *an.Atom) bool { return errNilAtom(a, errs) }}); x != nil {
+					c.R.Fail(rule, Fn(E)+":per-entry:error", c.Pos(K), "a failed per-entry import does not fail the import", "helper error returned", nil)
+				}
+				F = K.Common().StaticCallee()
+			}
+		}
+	}
 	// store sites: direct calls of the store's Store, or calls of a package helper that wraps exactly one such call
 	// (value and action passed as parameters, nil error only if that Store succeeded)
 	type storeSite struct {
@@ -752,6 +797,16 @@ func (c *Ctx) rulesLevelImport(prop string, s *Slashing) {
 	for _, l := range findRangeIterLoops(F) {
 		loop = l
 	}
+	// iteration scope: the loop body up to the header, or (per-entry helper) the helper's body up to its nil-error return
+	iterFrom := an.Entry(F)
+	iterEnd := func(i ssa.Instruction) bool { return isNilReturn(i, F) }
+	haveIter := F != E
+	if F == E && loop != nil {
+		hdr := loop.Header
+		iterFrom = an.Point{Block: loop.Body, Idx: 0}
+		iterEnd = func(i ssa.Instruction) bool { return i == hdr.Instrs[0] }
+		haveIter = true
+	}
 	for _, w := range wants {
 		var st ssa.CallInstruction
 		for _, ci := range stores {
@@ -846,9 +901,8 @@ func (c *Ctx) rulesLevelImport(prop string, s *Slashing) {
 			c.R.Fail(rule, Fn(F)+":"+w.kind+":key", c.Pos(st), "the "+w.kind+" record is stored under an action byte other than the one the rules read it under", "key[48] = "+actionName(actionOf[w.kind])+"[0]", nil)
 		}
 		// stored exactly when the guarding field is not -1: within an iteration the store is skipped only via [field == -1]
-		if loop != nil {
-			hdr := loop.Header
-			x, path := an.Cut(an.CutQuery{From: an.Point{Block: loop.Body, Idx: 0}, Target: func(i ssa.Instruction) bool { return i == hdr.Instrs[0] },
+		if haveIter {
+			x, path := an.Cut(an.CutQuery{From: iterFrom, Target: iterEnd,
 				AcceptInstr: func(i ssa.Instruction) bool { return i == st.(ssa.Instruction) },
 				AcceptEdge: func(b *ssa.BasicBlock, i int, a *an.Atom) bool {
 					if a == nil || a.Op != "==" {
@@ -876,9 +930,8 @@ func (c *Ctx) rulesLevelImport(prop string, s *Slashing) {
 		for _, e := range errValuesOfCall(st) {
 			errs[e] = true
 		}
-		if loop != nil {
-			hdr := loop.Header
-			if x, _ := an.Cut(an.CutQuery{From: an.After(st), Target: func(i ssa.Instruction) bool { return i == hdr.Instrs[0] || isNilReturn(i, F) },
+		if haveIter {
+			if x, _ := an.Cut(an.CutQuery{From: an.After(st), Target: func(i ssa.Instruction) bool { return iterEnd(i) || isNilReturn(i, F) },
 				AcceptEdge: func(b *ssa.BasicBlock, i int, a *an.Atom) bool { return errNilAtom(a, errs) }}); x != nil {
 				bad = true
 				c.R.Fail(rule, Fn(F)+":"+w.kind+":error", c.Pos(st), "a failed store does not fail the import", "store error returned", nil)
